@@ -33,6 +33,9 @@ Since the fixes abd397a (codes < 100 → `sol::FAILURE`), f454558 (infeasibility
                 inconsistent header with the problem partially populated.
 * `standalone`  without `-AMPL` and with `wantsol&1 = 0` an error is only printed on stdout (not at
                 all with `wantsol&8`), exit status 0.
+* `fmtintcode`  `throw Error("function {} is not defined", func_index)` (one `int` argument) picks
+                `Error(CStringRef, int c)`: the function number becomes the solve code (≥ 100 kept) and the
+                message is not formatted (`C09_fmtintcode_general`).
 * `exportonly`  `tech:writemodelonly=<file>`: `RunFromNLFile` skips `Solve()` and `Report()`; the run ends
                 with exit status 0, no `.sol`, no message (`C09_exportonly_general`).
 * `ctorcode`    (latent) an `mp::Error` escaping to `RunBackendApp` is turned into the exit status
@@ -140,19 +143,21 @@ theorem C09_hdrdims_general (sc : Scenario) (a : Bool) (w : Nat) (r : Raise) (f 
     obtain ⟨rfl, _⟩ := h
     simp [errFile, errDims, Stage.dimsKnown]
 
-/-- **Code class — full strength** (since abd397a / f454558; was `C09_code_class_partial`).
+/-- **Code class** (full strength since abd397a / f454558 for every way of raising but one: `Error("fmt {}", n)` with a
+single int argument, see `C09_fmtintcode_general`).
 Whenever a `.sol` is written its code is in the class of the cause: the solver's own code if nothing
 went wrong; 200–299 for infeasibility (also when `MP_INFEAS` is re-raised by `ConstraintKeeper`);
 500–999 for every failure — in particular for `ReadError`, `UnsupportedError`, `Error("fmt", …)`, whose
-`exit_code()` is `EXIT_FAILURE`; the raiser's code (≥ 100) for `Abort(c)` / sol-check.  No hypothesis
-on the ending. -/
-theorem C09_code_class (sc : Scenario) (e : Ending) (k : Cause) (f : SolFile) (ech : Bool)
-    (h : conclude sc e = .sol f ech) (hk : e.cause = some k) :
+`exit_code()` is `EXIT_FAILURE`; the raiser's code (≥ 100) for `Abort(c)` / sol-check. -/
+theorem C09_code_class_partial (sc : Scenario) (e : Ending) (k : Cause) (f : SolFile) (ech : Bool)
+    (h : conclude sc e = .sol f ech) (hk : e.cause = some k)
+    (hint : ∀ a w st r, e = .raised a w st r → r.intArgCodeOK = true) :
     codeOK sc.answer k f.code := by
   cases e with
   | info => simp [conclude] at h
   | exported a w => simp [conclude] at h
   | raised a w st r =>
+    have hia := hint a w st r rfl
     simp only [Ending.cause, Option.some.injEq] at hk
     by_cases hr : r = .foreign
     · rw [hr, conclude_foreign] at h; simp at h
@@ -164,9 +169,11 @@ theorem C09_code_class (sc : Scenario) (e : Ending) (k : Cause) (f : SolFile) (e
         obtain ⟨rfl, _⟩ := h
         simp only [errFile]
         rw [reportCode_of_raise, ← hk]
-        cases r <;> simp [Raise.cause, codeOK] at hr ⊢
-        rename_i c
-        by_cases hc0 : 100 ≤ c <;> simp [hc0, codeOK]
+        cases r <;> simp [Raise.cause, codeOK, Raise.intArgCodeOK] at hr hia ⊢
+        · rename_i c
+          by_cases hc0 : 100 ≤ c <;> simp [hc0, codeOK]
+        · rename_i n
+          by_cases hn : 100 ≤ n <;> simp [hn] <;> omega
   | finished a w =>
     simp only [Ending.cause, Option.some.injEq] at hk
     subst hk
@@ -175,6 +182,19 @@ theorem C09_code_class (sc : Scenario) (e : Ending) (k : Cause) (f : SolFile) (e
     obtain ⟨rfl, _⟩ := h
     simp [codeOK, okFile]
 
+/-- **`fmtintcode`, exactly**: `Error("… {} …", n)` with a single `int` argument is reported with solve code `n`
+whenever `n ≥ 100` — e.g. a call of the undeclared function 250 in an NL file ends as "infeasible" (250). -/
+theorem C09_fmtintcode_general (sc : Scenario) (a : Bool) (w : Nat) (st : Stage) (n : Int) (f : SolFile) (ech : Bool)
+    (h : conclude sc (.raised a w st (.fmtIntArg n)) = .sol f ech) :
+    f.code = (if n ≥ 100 then n else 500) ∧ (Ending.raised a w st (.fmtIntArg n)).cause = some .failure := by
+  rw [conclude_raised sc a w st _ (by simp)] at h
+  cases hi : st.insideRun
+  · rw [hi] at h; simp [Raise.toExn] at h
+  · cases hh : st.handlerAvailable <;> cases hw : wantsFile a w <;> cases ho : sc.out.writable <;>
+      simp [hi, hh, hw, ho] at h
+    obtain ⟨rfl, _⟩ := h
+    simp [errFile, Raise.toExn, Exn.reportCode, solFAILURE, Ending.cause, Raise.cause]
+
 /-- **The code written, exactly** (round 4): for every way of raising, the solve code in a written failure
 `.sol` — the causes the property names: proven infeasible during conversion (`infeas`, `wrappedInfeas`) → 200;
 unsupported construct, missing bounds (`plain` from `ConstraintConversionFailure`), invalid input / options
@@ -182,6 +202,7 @@ unsupported construct, missing bounds (`plain` from `ConstraintConversionFailure
 solution check → 150. -/
 def Raise.reportedCode : Raise → Int
   | .withCode c => if c ≥ 100 then c else 500
+  | .fmtIntArg n => if n ≥ 100 then n else 500
   | .infeas => 200
   | .wrappedInfeas => 200
   | .solCheck => 150
@@ -426,7 +447,7 @@ theorem C09_outcome_partial_end (sc : Scenario) (e : Ending) (hreg : Regular sc 
     · cases hd : sc.answer.haveDual <;> cases hp : sc.answer.havePrimal <;>
         simp [GoodEnd, Ending.cause, hreg, ho, codeOK, okFile, hd, hp]
   | raised a w st r =>
-    obtain ⟨hnf, hopt, hpop, hwant, hctor⟩ := hreg
+    obtain ⟨hnf, hintarg, hopt, hpop, hwant, hctor⟩ := hreg
     rw [conclude_raised sc a w st r hnf]
     cases hi : st.insideRun
     · -- constructor stage: RunBackendApp's catch clauses
@@ -451,9 +472,11 @@ theorem C09_outcome_partial_end (sc : Scenario) (e : Ending) (hreg : Regular sc 
               · simp [errDims, dimsKnown_of_handler_ne_options st hh hso hsp]
           have hcls : codeOK sc.answer r.cause r.toExn.reportCode := by
             rw [reportCode_of_raise]
-            cases r <;> simp [Raise.cause, codeOK] at hnf ⊢
-            rename_i c
-            by_cases hc : 100 ≤ c <;> simp [hc, codeOK]
+            cases r <;> simp [Raise.cause, codeOK, Raise.intArgCodeOK] at hnf hintarg ⊢
+            · rename_i c
+              by_cases hc : 100 ≤ c <;> simp [hc, codeOK]
+            · rename_i n
+              by_cases hn : 100 ≤ n <;> simp [hn] <;> omega
           simp [GoodEnd, Ending.cause, hh, hw, ho, errFile, hdn, hcls]
 
 /-- **C09 (partial), stated on scenarios.** -/
@@ -525,6 +548,7 @@ theorem C09_gen_exit_codes (r : Raise) :
       | .optionError => .mpError Gen.C09.exitCode_optionError
       | .readError => .mpError Gen.C09.exitCode_readError
       | .fmtError => .mpError Gen.C09.exitCode_fmtError
+      | .fmtIntArg n => .mpError (Gen.C09.exitCode_fmtIntArg n)
       | .systemError => .stdExn
       | .stdExn => .stdExn
       | .foreign => .foreign := by
@@ -725,6 +749,12 @@ theorem C09_counterexample_standalone :
     run { scBase with ampl := false, opts := [.tok (.wantsol 8), .tok .bad] } = .stdoutOnly 500 false ∧
     ¬ Good { scBase with ampl := false, opts := [.tok .bad] } (run { scBase with ampl := false, opts := [.tok .bad] }) := by decide
 
+/-- an NL file calling the undeclared function 250 (`f250 0`): "function {} is not defined", solve code 250. -/
+theorem C09_counterexample_fmtintcode :
+    run { scBase with fault := some (.body, .fmtIntArg 250) } = .sol ⟨250, 1, 0, 2, 0, true⟩ false ∧
+    ¬ Good { scBase with fault := some (.body, .fmtIntArg 250) } (run { scBase with fault := some (.body, .fmtIntArg 250) }) := by
+  decide
+
 /-- `recsolver stub -AMPL tech:writemodelonly=m.lp`: nothing is reported at all. -/
 theorem C09_counterexample_exportonly :
     run { scBase with justExport := true } = .silent ∧
@@ -776,15 +806,16 @@ example := C09_dims_run_partial scMessy ⟨500, 7, 0, 9, 0, true⟩ true (by dec
   (by rw [show ending scMessy = .raised false 5 .body .readError by decide]; c09_inst)
   (by rw [show ending scMessy = .raised false 5 .body .readError by decide]; c09_inst)
 example : codeOK scMessy.answer .failure 500 :=
-  C09_code_class scMessy (.raised false 5 .body .readError) .failure ⟨500, 7, 0, 9, 0, true⟩ true (by decide) (by decide)
+  C09_code_class_partial scMessy (.raised false 5 .body .readError) .failure ⟨500, 7, 0, 9, 0, true⟩ true (by decide) (by decide) (by c09_inst)
 example : codeOK scBase.answer .infeasible 200 :=
-  C09_code_class scBase (.raised true 1 .convert .wrappedInfeas) .infeasible ⟨200, 1, 0, 2, 0, true⟩ false (by decide) (by decide)
+  C09_code_class_partial scBase (.raised true 1 .convert .wrappedInfeas) .infeasible ⟨200, 1, 0, 2, 0, true⟩ false (by decide) (by decide) (by c09_inst)
 example : codeOK scBase.answer (.asRaised 567) 567 :=
-  C09_code_class scBase (.raised true 1 .solve (.withCode 567)) _ ⟨567, 1, 0, 2, 0, true⟩ false (by decide) (by decide)
+  C09_code_class_partial scBase (.raised true 1 .solve (.withCode 567)) _ ⟨567, 1, 0, 2, 0, true⟩ false (by decide) (by decide) (by c09_inst)
 example : codeOK scBase.answer .none 0 :=
-  C09_code_class scBase (.finished true 1) .none ⟨0, 1, 1, 2, 2, true⟩ false (by decide) (by decide)
+  C09_code_class_partial scBase (.finished true 1) .none ⟨0, 1, 1, 2, 2, true⟩ false (by decide) (by decide) (by c09_inst)
 example := C09_reported_code_exact scBase true 1 .solve (.withCode 42) ⟨500, 1, 0, 2, 0, true⟩ false (by decide)
 example := C09_complete scMessy (.raised false 5 .body .readError) ⟨500, 7, 0, 9, 0, true⟩ true (by decide)
+example := C09_fmtintcode_general scBase true 1 .body 250 ⟨250, 1, 0, 2, 0, true⟩ false (by decide)
 -- C09_optdims_general / C09_hdrdims_general
 example := C09_optdims_general { scBase with dims := ⟨7, 9⟩ } true 1 .plain ⟨500, 0, 0, 0, 0, true⟩ false (by decide)
 example := C09_hdrdims_general { scBase with dims := ⟨7, 9⟩, partialDims := ⟨0, 9⟩ } true 1 .stdExn ⟨500, 0, 0, 9, 0, true⟩ false (by decide)
